@@ -657,6 +657,14 @@ func Origins(v ssa.Value) []ssa.Value {
 						walk(st.Val, d+1)
 						return
 					}
+					// a result object: the field of a struct that a first-party helper built and returned —
+					// continue with what the helper stored there, read in the helper's frame
+					if val, call := recordFieldFromHelper(fa); val != nil && len(activeCtx) < 6 {
+						activeCtx = append(activeCtx, call)
+						walk(val, d+1)
+						activeCtx = activeCtx[:len(activeCtx)-1]
+						return
+					}
 				}
 			}
 			out = append(out, v)
@@ -831,6 +839,72 @@ func ctxFieldStore(load *ssa.UnOp, fa *ssa.FieldAddr) *ssa.Store {
 		base = arg // the caller is itself a helper: continue outward
 	}
 	return nil
+}
+
+// recordFieldFromHelper: fa addresses field f of a struct pointer that is result #i of a call to a statically
+// resolved first-party function which, on every return that yields a non-nil pointer there, returns one and
+// the same composite literal allocated in its body, with exactly one store to field f. Returns the stored
+// value and the call.
+func recordFieldFromHelper(fa *ssa.FieldAddr) (ssa.Value, *ssa.Call) {
+	base := fa.X
+	if ld, ok := base.(*ssa.UnOp); ok && ld.Op == token.MUL {
+		if al, ok := ld.X.(*ssa.Alloc); ok {
+			stores, zero := ReachingStores(ld)
+			if zero || len(stores) != 1 {
+				_ = al
+				return nil, nil
+			}
+			base = stores[0].Val
+		}
+	}
+	ci, idx := CallOf(base)
+	call, ok := ci.(*ssa.Call)
+	if !ok || call == nil {
+		return nil, nil
+	}
+	h := call.Call.StaticCallee()
+	if h == nil || len(h.Blocks) == 0 || h.Pkg == nil || !IsFirstParty(h.Pkg.Pkg.Path()) {
+		return nil, nil
+	}
+	var rec *ssa.Alloc
+	for _, r := range Returns(h) {
+		if idx >= len(r.Results) {
+			return nil, nil
+		}
+		v := r.Results[idx]
+		if isNilConst(v) {
+			continue
+		}
+		al, ok := v.(*ssa.Alloc)
+		if !ok || !al.Heap {
+			return nil, nil
+		}
+		if rec != nil && rec != al {
+			return nil, nil
+		}
+		rec = al
+	}
+	if rec == nil || rec.Referrers() == nil {
+		return nil, nil
+	}
+	var val ssa.Value
+	n := 0
+	for _, r := range *rec.Referrers() {
+		rfa, ok := r.(*ssa.FieldAddr)
+		if !ok || rfa.Field != fa.Field || rfa.Referrers() == nil {
+			continue
+		}
+		for _, u := range *rfa.Referrers() {
+			if st, ok := u.(*ssa.Store); ok && st.Addr == ssa.Value(rfa) {
+				val = st.Val
+				n++
+			}
+		}
+	}
+	if n != 1 {
+		return nil, nil
+	}
+	return val, call
 }
 
 // sameCell: two values denote the same variable (identical, or loads of one local cell).
